@@ -118,7 +118,8 @@ structure PoolInv (s : State) : Prop where
   liveBelow   : ∀ c a, a ∈ s.refs c → a < s.next
   freeNodup   : s.free.Nodup
 
-/-! ## Syntax tree shared between the stored program and an evaluation (pre-finding F8) -/
+/-! ## Syntax tree shared between the stored program and an evaluation
+     (the shape of pre-finding F8, repaired in /repo by commit 02f8662; kept as the model-level witness) -/
 
 inductive Arg
   | allColumns            -- `*`
@@ -129,7 +130,7 @@ deriving DecidableEq, Repr
 /-- the text the header / the look-up use to identify `COUNT(args) OVER ()` -/
 def identifier (args : List Arg) : List Arg := args
 
-/-- `Analyze` as written: the identifier is taken first, then `fn.Args[0] = 1` is stored through the
+/-- `Analyze` as it was written before the repair: the identifier is taken first, then `fn.Args[0] = 1` is stored through the
     slice shared with the program; returns (identifier registered in the header, program's args afterwards) -/
 def analyzeInPlace (programArgs : List Arg) : List Arg × List Arg :=
   let headerId := identifier programArgs
@@ -137,7 +138,7 @@ def analyzeInPlace (programArgs : List Arg) : List Arg × List Arg :=
   | .allColumns :: rest => (headerId, .intLit 1 :: rest)
   | _ => (headerId, programArgs)
 
-/-- `Analyze` on a private copy of the argument list: the program is left as it was -/
+/-- `Analyze` on a private copy of the argument list (what the code does now): the program is left as it was -/
 def analyzeOnCopy (programArgs : List Arg) : List Arg × List Arg :=
   (identifier programArgs, programArgs)
 
